@@ -959,7 +959,11 @@ func parityPhiMap(phi *ssa.Phi) map[int64]int64 {
 				continue
 			}
 			rem, ok := rel.X.(*ssa.BinOp)
-			if !ok || rem.Op != token.REM {
+			if !ok {
+				continue
+			}
+			// i%2 or i&1
+			if k, isK := core.ConstInt(rem.Y); !(rem.Op == token.REM && isK && k == 2) && !(rem.Op == token.AND && isK && k == 1) {
 				continue
 			}
 			par, isC := core.ConstInt(rel.Y)
@@ -1080,9 +1084,9 @@ func checkAlternatingParity(p *core.Program, r *core.Report, dec *ssa.Function) 
 		}
 		accepted := func(g core.Guard) bool {
 			if rel, ok := core.AsRel(g); ok {
-				if rem, isRem := rel.X.(*ssa.BinOp); isRem && rem.Op == token.REM {
+				if rem, isRem := rel.X.(*ssa.BinOp); isRem && (rem.Op == token.REM || rem.Op == token.AND) {
 					if _, isLen := core.LenOf(rem.X); isLen {
-						if m, isM := core.ConstInt(rem.Y); isM && m == 2 {
+						if m, isM := core.ConstInt(rem.Y); isM && (rem.Op == token.REM && m == 2 || rem.Op == token.AND && m == 1) {
 							k, isK := core.ConstInt(rel.Y)
 							return isK && (rel.Op == token.NEQ && k == 1 || rel.Op == token.EQL && k == 0)
 						}
